@@ -637,7 +637,7 @@ impl Simulation for C17Sim {
     if name == "thorough" {
       TierCfg { name: "thorough".into(), max_runs: 30_000, secs: 900 }
     } else {
-      TierCfg { name: "quick".into(), max_runs: 400, secs: 150 }
+      TierCfg { name: "quick".into(), max_runs: 600, secs: 150 }
     }
   }
   fn run(&self, seed: u64, tier: &str, _known: &KnownFindings) -> RunReport {
